@@ -427,7 +427,7 @@ def oracle_nan_sweep(cs, o):
 def run_corr(ctx, prefix, scale, extra_oracle=None):
     if not build_driver(ctx, "ocp"): return
     nan_cases = gen_nan_sweep(ctx, max(3, int(scale * ctx.n(10, 60))))
-    nouts = run_driver(ctx, "ocp", "".join(c.to_input() for c in nan_cases), timeout=900)
+    nouts = run_driver(ctx, "ocp", [c.to_input() for c in nan_cases], timeout=900)
     if nouts is None or len(nouts) != len(nan_cases):
         ctx.broke("correspondence", "drv_ocp (nan-sweep stream)", "driver produced %s results for %d runs" % (None if nouts is None else len(nouts), len(nan_cases)))
         return
@@ -441,7 +441,7 @@ def run_corr(ctx, prefix, scale, extra_oracle=None):
     ctx.coverage["nan_sweep_runs"] = len(nan_cases)
     cases = (gen_corpus(ctx) + gen_dyadic(ctx) + gen_plateau(ctx, max(4, int(scale * ctx.n(12, 60)))) + gen_stopscan(ctx, max(2, int(scale * ctx.n(6, 40)))) +
              gen_hard(ctx, max(20, int(scale * ctx.n(150, 1500)))) + gen_random(ctx, max(40, int(scale * ctx.n(250, 2500)))))
-    outs = run_driver(ctx, "ocp", "".join(c.to_input() for c in cases), timeout=1500)
+    outs = run_driver(ctx, "ocp", [c.to_input() for c in cases], timeout=1500)
     if outs is None or len(outs) != len(cases):
         ctx.broke("correspondence", "drv_ocp", "driver produced %s results for %d runs rc=%s %s" % (None if outs is None else len(outs), len(cases), getattr(ctx, "driver_rc", "?"), getattr(ctx, "driver_err", "")))
         return
